@@ -36,7 +36,7 @@ class _Opt:
         pass
 
 
-def evaluators(I, two_runs=False, twin=False):
+def evaluators(I, two_runs=False, twin=False, stop_in_batch=False):
     import torch
     from checks.c12 import _state
     from qucumber.callbacks import MetricEvaluator, ObservableEvaluator, Logger, LambdaCallback
@@ -55,9 +55,12 @@ def evaluators(I, two_runs=False, twin=False):
         def metric2(s, **kw):
             return -1.0 * clock[0]
 
+        def metric3(s, **kw):  # values without a short decimal expansion, and tiny ones: the log must hold them as computed
+            return clock[0] / 3.0 + 1e-9 * clock[0]
+
         log1, log2 = os.path.join(d, "m.csv"), os.path.join(d, "o.csv")
         # a metric may be named like an attribute of the evaluator: subscripting still yields that metric's values
-        me = MetricEvaluator(p1, {"m": metric, "w": metric2, "last": lambda s, **kw: 7.0 * clock[0], "period": lambda s, **kw: 0.5 * clock[0]}, log=log1)
+        me = MetricEvaluator(p1, {"m": metric, "w": metric2, "last": lambda s, **kw: 7.0 * clock[0], "period": lambda s, **kw: 0.5 * clock[0], "third": metric3}, log=log1)
         oe = ObservableEvaluator(p3, [SigmaZ()], log=log2, num_samples=1)
         ocount = [0]
 
@@ -72,10 +75,15 @@ def evaluators(I, two_runs=False, twin=False):
 
         def on_end(s, ep):
             seen.append(ep)
-            if ep == stop_at:
+            if ep == stop_at and not stop_in_batch:
                 s.stop_training = True
 
-        rec = LambdaCallback(on_epoch_end=on_end)
+        def on_bend(s, ep, b):
+            # a stop requested in the middle of an epoch: that epoch still ends (and is an epoch of the run for every periodic callback)
+            if stop_in_batch and ep == stop_at and b == 0:
+                s.stop_training = True
+
+        rec = LambdaCallback(on_epoch_end=on_end, on_batch_end=on_bend)
         data = torch.tensor([[0.0, 1.0], [1.0, 1.0], [1.0, 0.0]], dtype=torch.double)
         with contextlib.redirect_stdout(io.StringIO()):
             st.fit(data, epochs=epochs, pos_batch_size=2, starting_epoch=start, callbacks=[rec, me, lg, oe], optimizer=_Opt)
@@ -102,7 +110,7 @@ def evaluators(I, two_runs=False, twin=False):
         vals = [10.0 * (nprev + i + 1) for i in range(len(want))]
         if len(me) != len(want) or list(me.epochs) != want:
             return False, "MetricEvaluator acted at %s, expected %s" % (list(me.epochs), want)
-        if me.names != ["m", "w", "last", "period"] or list(me.m) != vals or list(me["m"]) != vals:
+        if me.names != ["m", "w", "last", "period", "third"] or list(me.m) != vals or list(me["m"]) != vals:
             return False, "per-name arrays %s vs %s" % (list(me.m), vals)
         try:
             sub = [list(me["last"]), list(me["period"])]
@@ -124,6 +132,9 @@ def evaluators(I, two_runs=False, twin=False):
         allwant = ([e for e in first if e % q1 == 0] if two_runs else []) + want
         if [int(r["epoch"]) for r in rows] != allwant or [float(r["m"]) for r in rows] != [10.0 * (i + 1) for i in range(len(allwant))]:
             return False, "CSV log rows %s vs epochs %s" % (rows, allwant)
+        third = [(i + 1) / 3.0 + 1e-9 * (i + 1) for i in range(len(allwant))]
+        if [float(r["third"]) for r in rows] != third or list(me.third)[-len(want):] != third[len(third) - len(want):]:
+            return False, "CSV log holds %s for metric 'third', computed values were %s" % ([r["third"] for r in rows], third)
         # observable evaluator
         owant = [e for e in run if e % q3 == 0]
         oprev = len([e for e in (first if two_runs else []) if e % q3 == 0])
@@ -150,7 +161,7 @@ def evaluators(I, two_runs=False, twin=False):
         shutil.rmtree(d, ignore_errors=True)
 
 
-def saver(I, kind="complex", metadata="dict", metadata_only=False, save_initial=True):
+def saver(I, kind="complex", metadata="dict", metadata_only=False, save_initial=True, stop_in_batch=False):
     import torch
     from qucumber.nn_states import PositiveWaveFunction, ComplexWaveFunction, DensityMatrix
     from qucumber.callbacks import ModelSaver, LambdaCallback
@@ -178,10 +189,14 @@ def saver(I, kind="complex", metadata="dict", metadata_only=False, save_initial=
         def on_end(s, ep):
             seen.append(ep)
             snap(ep)
-            if ep == stop_at:
+            if ep == stop_at and not stop_in_batch:
                 s.stop_training = True
 
-        rec = LambdaCallback(on_train_start=lambda s: snap("initial"), on_epoch_end=on_end)
+        def on_bend(s, ep, b):
+            if stop_in_batch and ep == stop_at and b == 0:
+                s.stop_training = True
+
+        rec = LambdaCallback(on_train_start=lambda s: snap("initial"), on_epoch_end=on_end, on_batch_end=on_bend)
         data = torch.tensor([[0.0, 1.0], [1.0, 1.0], [1.0, 0.0]], dtype=torch.double)
         kw = dict(epochs=epochs, pos_batch_size=2, starting_epoch=start, callbacks=[rec, ms], lr=0.1)
         if kind != "positive":
@@ -236,6 +251,8 @@ def specs(tier):
     ev_in = dict(start=("int", 0, hi), epochs=("int", 0, hi), p1=("int", 1, pm), p2=("int", 1, 3), p3=("int", 1, 3), stop_at=("int", 0, hi))
     S.append(dict(name="evaluators", module="checks.c17", function="evaluators", kwargs={}, inputs=ev_in, pre=["p2 == p3"]))
     S.append(dict(name="evaluators-mixed-periods", module="checks.c17", function="evaluators", kwargs={}, inputs=ev_in, pre=["p1 == 2", "stop_at == 0", "start <= 1"]))
+    S.append(dict(name="evaluators-stop-inside-an-epoch", module="checks.c17", function="evaluators", kwargs=dict(stop_in_batch=True),
+                  inputs=dict(ev_in, start=("int", 0, 2), epochs=("int", 0, 3), stop_at=("int", 0, 3), p1=("int", 1, 3)), pre=["p2 == p3", "p2 <= 2"]))
     S.append(dict(name="evaluators-two-runs", module="checks.c17", function="evaluators", kwargs=dict(two_runs=True),
                   inputs=dict(ev_in, start=("int", 0, 2), epochs=("int", 0, 3), stop_at=("int", 0, 0)), pre=["p2 == 1", "p3 == p1"]))
     sv_in = dict(start=("int", 0, 3), epochs=("int", 0, 3), period=("int", 1, 3), stop_at=("int", 0, 3))
@@ -247,6 +264,8 @@ def specs(tier):
         S.append(dict(name="saver-%s-%s%s%s" % (kind, md, "-only" if only else "", "" if init else "-noinit"), module="checks.c17", function="saver",
                       kwargs=dict(kind=kind, metadata=md, metadata_only=only, save_initial=init), inputs=sv_in,
                       key="ModelSaver" + ("/dict metadata" if md == "dict" else "")))
+    S.append(dict(name="saver-complex-callable-stop-inside-an-epoch", module="checks.c17", function="saver",
+                  kwargs=dict(kind="complex", metadata="callable", metadata_only=False, save_initial=True, stop_in_batch=True), inputs=sv_in, key="ModelSaver"))
     S.append(dict(name="twin-shifted-schedule", module="checks.c17", function="evaluators", kwargs=dict(twin=True), expect_fail=True,
                   inputs=dict(start=("int", 1, 1), epochs=("int", 2, 3), p1=("int", 2, 2), p2=("int", 1, 1), p3=("int", 1, 1), stop_at=("int", 0, 0))))
     return S
